@@ -195,7 +195,7 @@ def check_case(ctx: runner.Ctx, case):
                      "outcome": outcome, "provs": case.get("provs"), "layouts": case.get("layouts")},
              labels=[f"outcome:{outcome}", f"debug:{case['debug']}", f"strict:{case['strict']}", f"top:{t[0]}",
                      "src:" + ("soup" if case["ops"] in (["soup"], ["soup+bigint"]) else "atheris" if case["ops"] == ["atheris"] else
-                               "table" if case["ops"] == ["table"] else
+                               "table" if case["ops"][:1] == ["table"] else
                                "model_root_structure" if str(case["ops"][:1]).startswith("['root:") else
                                f"near{min(len(case['ops']), 3)}"),
                      *[f"layout:{h}" for h in set((case.get("layouts") or {}).values())],
@@ -358,7 +358,56 @@ def hostile_table_cases():
                                "provs": [], "layouts": {}}
 
 
+def list_layout_table_cases():
+    """List-layout (as_list) models, at the root and one level down, x root containers of every wrong shape: mappings with
+    integer keys (complete, with a gap, with an invalid item before the gap), strings, bytes, scalars, too short / too long
+    sequences, one-shot iterators, custom mappings."""
+    ok = {"a": 1, "b": "s", "c": [1]}
+    bad = {"a": "x", "b": 5, "c": "zz"}
+    for kind in ("dataclass", "namedtuple", "typeddict"):
+        for names in (["a", "b"], ["a", "b", "c"]):
+            types = {"a": ["int"], "b": ["str"], "c": ["list", ["int"], "typing"]}
+            model = ["model", {"name": "M0", "kind": kind, "fields": [{"n": n, "t": types[n], "d": None} for n in names]}]
+            order = sorted(names) if kind == "typeddict" else names   # TypedDict list layouts are ordered by name
+            good = [ok[n] for n in order]
+            items = {
+                "valid": good, "tuple": {"$": "t", "v": good}, "short": good[:-1], "long": [*good, 7], "empty": [],
+                "first_bad": [bad[order[0]], *good[1:]], "last_bad": [*good[:-1], bad[order[-1]]],
+                "all_bad": [bad[n] for n in order],
+                "intkeys": {"$": "d", "v": [[i, x] for i, x in enumerate(good)]},
+                "intkeys_first_only": {"$": "d", "v": [[0, good[0]]]},
+                "intkeys_gap": {"$": "d", "v": [[i, x] for i, x in enumerate(good) if i != 1]},
+                "intkeys_bad_then_gap": {"$": "d", "v": [[0, bad[order[0]]], *[[i, x] for i, x in enumerate(good) if i > 1]]},
+                "intkeys_late": {"$": "d", "v": [[i + 1, x] for i, x in enumerate(good)]},
+                "strkeys": {"$": "d", "v": [[str(i), x] for i, x in enumerate(good)]},
+                "custmap_int": {"$": "custmap", "v": [[0, bad[order[0]]]]},
+                "str": "ab", "str_long": "abcdef", "bytes": {"$": "bytes", "h": "6162"}, "int": 5, "none": None,
+                "gen": {"$": "gen", "v": good}, "nolen": {"$": "nolen", "v": good}, "set": {"$": "set", "v": [1, 2]},
+                "deque": {"$": "deque", "v": good},
+            }
+            for label, datum in items.items():
+                for wrap in ("root", "in_list", "in_model"):
+                    if wrap == "root":
+                        t, d = model, datum
+                    elif wrap == "in_list":
+                        t, d = ["list", model, "typing"], [datum, datum]
+                    else:
+                        t = ["model", {"name": "M1", "kind": "dataclass", "fields": [{"n": "k", "t": ["int"], "d": None},
+                                                                                     {"n": "m", "t": model, "d": None}]}]
+                        d = {"$": "d", "v": [["k", "bad"], ["m", datum]]}
+                    for mode in range(6):
+                        yield {"t": t, "datum": d, "ops": ["table", f"list_layout:{label}"], "strict": bool(mode % 2),
+                               "debug": mode // 2, "provs": [], "layouts": {"M0": "as_list"}}
+
+
 def explore(ctx: runner.Ctx):
+    n_ll = 0
+    for i, c in enumerate(list_layout_table_cases()):
+        n_ll += 1
+        if i % ctx.nshards == ctx.shard:
+            runner.guarded(ctx, lambda k: check_case(ctx, k), c)
+    ctx.mark_exhaustive(f"list-layout table: {n_ll} cases = 3 model kinds x 2 field lists x 24 root containers of right and wrong "
+                        f"shapes x (root, list element, field of an outer model) x 6 mode combinations")
     n_tab = 0
     for i, c in enumerate(hostile_table_cases()):
         n_tab += 1
